@@ -141,8 +141,13 @@ def run(prop, seed, budget, ctx):
                 for k in bad: hist["bad:" + k] += 1
                 failures.append({"kind": "P", "k_ok": True, "cls": c["cls"], "src": c["src"], "fields": c["fields"], "ca": c["ca"], "dep": c["dep"], "val": c["val"], "group": c["group"], "val2": c.get("val2"),
                                  "aliaser": dn, "external_names": want, "bad_views": bad, "why": ["views-disagree-on-the-external-name:" + ",".join(sorted(bad))]})
+    import gql_args
+    gf, gn, gd, gh = gql_args.run_part(seed, budget)
+    failures += gf; evaluations += gn; distinct |= gd
+    for k_, v_ in gh.items(): hist[k_] += v_
     return {"evaluations": evaluations, "distinct_nontrivial": len(distinct),
-            "rule": "generated dataclasses (1-4 fields from a pool with snake_case, camelCase, a keyword-like name, a $-prefixed alias; override=False; "
+            "rule": "GraphQL operation arguments (queries, mutations, subscriptions with / without resolver; alias by parameters_metadata / Annotated) x aliasers: published name = consumed name; "
+                    "generated dataclasses (1-4 fields from a pool with snake_case, camelCase, a keyword-like name, a $-prefixed alias; override=False; "
                     "dependent_required; a validator yielding an alias) x class aliaser in {none, upper, prefix} x dynamic aliaser in {identity, "
                     "camelCase, custom}; up to eleven views compared with the specification; non-trivial = some aliasing in effect",
             "samples": samples, "histograms": dict(hist), "failures": failures}
@@ -160,6 +165,7 @@ def is_known(kid, case):
 
 def replay(prop, case, ctx):
     from apischema.utils import to_camel_case
+    if case.get("part") == "gql-args": return {k: case.get(k) for k in ("src", "op", "aliaser", "why", "info")}
     DYN = {"identity": (lambda s: s), "camel": to_camel_case, "custom": (lambda s: s + "_")}
     mod = build_module(HEADER + ["from apischema.objects import get_alias", ""] + case["src"], "aliasreplay")
     c = {k: case.get(k) for k in ("cls", "src", "fields", "ca", "dep", "val", "group", "val2")}; c["fields"] = [tuple(f) for f in c["fields"]]
